@@ -169,6 +169,7 @@ class PathWorld:
             vw["emissions"][k]["emissions_production_rate"] = 0.25
         self.base_files = copy.deepcopy(self.files)
         self.write_params()
+        self.pos, self.draw_names, self.gid_now, self.k_now, self.runs = 0, {}, 0, 0, 0   # preseed stream (cache.STREAM)
 
     # -- inputs -------------------------------------------------------------------------------------
     def write_input(self, inp, size=0, edit=None):
@@ -218,7 +219,10 @@ class PathWorld:
 
     def run(self):
         before = self.folder_state()
-        np.random.seed(C.NP_SEED)
+        np.random.seed(C.NP_SEED + self.runs)          # every run is a new process: other entropy
+        C.STREAM.world, self.gid_now, self.k_now = self, self.runs, 0
+        self.runs += 1
+        n_sims = self.files["Simulation_settings.yaml"]["simulation_count"]
         out = {"outcome": "done", "error": None}
         sm = None
         try:
@@ -232,15 +236,23 @@ class PathWorld:
             out["outcome"] = "rejected" if sm is None else "fail"
             out["error"] = f"{type(e).__name__}: {e}"[:200]
             return out
+        finally:
+            C.STREAM.world = None
         after = self.folder_state()
         out["changed"] = sorted(f for f in set(before) | set(after) if before.get(f) != after.get(f))
         out["vw"], out["programs"] = sm.virtual_world, sm.programs
         st, obj = C._load(self.gen / C.GEN_FILES["infra"])
         out["infra"] = C.infra_digest(obj) if st == "ok" else st
-        out["emis"] = []
-        for i in range(N_SIMS):
-            st, obj = C._load(self.gen / C.Generator_Files.GEN_INFRA_EMISS.format(i=i))
+        out["emis"], out["bodies"], out["emis_sha"] = [], [], []
+        for i in range(n_sims):
+            pth = self.gen / C.Generator_Files.GEN_INFRA_EMISS.format(i=i)
+            st, obj = C._load(pth)
             out["emis"].append(C.digest(obj) if st == "ok" else st)
+            out["bodies"].append(C.digest(list(obj.values())[0]) if st == "ok" and isinstance(obj, dict)
+                                 and len(obj) == 1 else st)
+            out["emis_sha"].append(C.hashlib.sha1(open(pth, "rb").read()).hexdigest() if st == "ok" else st)
+        st, obj = C._load(self.gen / C.GEN_FILES["seeds"])
+        out["seeds"] = [int(x) for x in obj] if st == "ok" else st
         st, obj = C._load(self.gen / C.GEN_FILES["hashes"])
         out["hashes"] = obj if st == "ok" else st
         return out
